@@ -1035,6 +1035,15 @@ def rule_literal_verbatim(ctx):
                 ids = A.pat_idents(st["pat"])
                 if len(ids) == 1 and st.get("init"):
                     lets.setdefault(ids[0], []).append(A.render(st["init"]["expr"]))
+            # names bound by `if let P = E` / `while let` / `match E { P => .. }` derive from E
+            for x_, ps_ in A.walk(fn.block):
+                if A.kind(x_) == "Expr::Let":
+                    for n_ in A.pat_idents(x_["pat"]):
+                        lets.setdefault(n_, []).append(A.render(x_["expr"]))
+                elif A.kind(x_) == "Expr::Match":
+                    for arm_ in x_["arms"]:
+                        for n_ in A.pat_idents(arm_["pat"]):
+                            lets.setdefault(n_, []).append(A.render(x_["expr"]))
 
             def derived(name, depth=0):
                 for r in lets.get(name, []):
